@@ -19,7 +19,7 @@ sys.path.insert(0, os.path.dirname(os.path.dirname(os.path.abspath(__file__))))
 
 import torch  # noqa: E402
 
-from kvstatic.constfold import Folder, Unfoldable  # noqa: E402
+from kvstatic.constfold import Folder, PySeq, Unfoldable  # noqa: E402
 
 UNARY = [
     "t.any(dim={d})", "t.all(dim={d})", "torch.any(t, dim={d})", "t.any(dim={d}, keepdim=True)", "t.sum(dim={d})", "torch.sum(t, dim={d})", "t.sum(dim={d}, keepdim=True)",
@@ -176,6 +176,19 @@ FRAGMENTS_ANY = [
 ]
 
 
+#: plain python expressions (evaluated by python itself and by the Folder; n, m ints, xs a list of ints, w a bit list)
+PY_TEMPLATES = [
+    "n // m", "n % m", "-n // m", "-n % m", "n ** 2", "n << 2", "n >> 1", "n & m", "n | m", "n ^ m", "~n", "n.bit_length()", "int(n / m)", "int(-n / m)", "int(n / 2.5)", "float(n)", "abs(-n)", "bool(n - n)", "min(n, m)", "max(n, m, 3)",
+    "divmod(n, m)", "round(n / m)", "round(n / m, 2)", "n / m", "2 ** (n % 5)", "10 ** (-(n % 3))", "bin(n)", "bin(n)[2:]", "bin(n)[2:].zfill(8)", "format(n, 'b')", "format(n, '08b')", "f'{n:05b}'", "f'{n}-{m}'", "str(n) + str(m)", "int('101', 2)", "int(bin(n)[2:], 2)",
+    "[int(c) for c in format(n, '06b')]", "[(n >> i) & 1 for i in range(6)]", "[(n >> i) & 1 for i in reversed(range(6))]", "sum((n >> i) & 1 for i in range(8))", "list(range(m))", "list(range(1, m))", "list(range(m, 0, -1))", "list(range(0, n, m))", "len(range(n))",
+    "xs[0]", "xs[-1]", "xs[1:3]", "xs[::-1]", "xs[::2]", "xs[1::2]", "xs + [n]", "xs * 2", "[0] * m", "len(xs)", "sum(xs)", "min(xs)", "max(xs)", "sorted(xs)", "sorted(xs, reverse=True)", "list(reversed(xs))", "list(enumerate(xs))", "list(zip(xs, xs[1:]))", "xs.index(max(xs))", "xs.count(xs[0])",
+    "n in xs", "n not in xs", "any(x > n for x in xs)", "all(x >= 0 for x in xs)", "[x for x in xs if x % 2]", "[x * x for x in xs]", "{x: x % 3 for x in xs}", "{x % 3 for x in xs}", "sorted({x % 3 for x in xs})", "[i for i, x in enumerate(xs) if x > n]", "[a + b for a, b in zip(xs, w)]",
+    "tuple(xs)", "list(tuple(xs))", "(n, m) == (n, m)", "(n, m) < (m, n)", "xs == list(xs)", "xs != xs[::-1]", "n == m or n > m", "n and m", "n or m", "not n", "n if n > m else m", "(n > m) + (n < m)", "1 if xs else 0", "0 if [] else 1", "len([]) == 0",
+    "sum(b << i for i, b in enumerate(w))", "sum(b << i for i, b in enumerate(reversed(w)))", "int(''.join(str(b) for b in w), 2)", "w[::-1]", "[1 - b for b in w]", "[a ^ b for a, b in zip(w, w[1:] + w[:1])]", "sum(w) % 2", "w.count(1)", "[w[i] for i in range(len(w)) if i % 2 == 0]",
+    "math.log2(2 ** (n % 7))", "int(math.log2(2 ** (n % 7)))", "math.ceil(n / m)", "math.floor(n / m)", "math.sqrt(n * n)", "math.comb(6, n % 6)", "math.pi > 3", "math.gcd(n, m)", "(n + m - 1) // m", "-(-n // m)", "n * (n + 1) // 2", "(1 << m) - 1", "n & ((1 << 3) - 1)", "(n >> 1) ^ n",
+]
+
+
 def rnd_tensor(rng: random.Random, shape):
     n = 1
     for s in shape:
@@ -279,7 +292,46 @@ def main() -> int:
                 agree += 1
             else:
                 bad.append((src, {"t": t.tolist()}, norm(got), norm(want)))
-    cases = cases + [None] * fcases
+    import math
+
+    pcases = 0
+    for src in PY_TEMPLATES:
+        for _ in range(6):
+            env = {"n": rng.randint(0, 40), "m": rng.randint(1, 7), "xs": [rng.randint(0, 9) for _ in range(rng.randint(3, 6))], "w": [rng.randint(0, 1) for _ in range(5)]}
+            pcases += 1
+            node = ast.parse(src, mode="eval").body
+            try:
+                want = eval(compile(ast.Expression(node), "<p>", "eval"), dict({"math": math}, **{k: (list(v) if isinstance(v, list) else v) for k, v in env.items()}))
+            except Exception:
+                torch_err += 1
+                want = None
+            try:
+                got = Folder({k: (PySeq(v) if isinstance(v, list) else v) for k, v in env.items()}, {}).fold(node)
+            except Unfoldable:
+                refused += 1
+                continue
+            except Exception as exc:
+                bad.append((src, env, f"CRASH {type(exc).__name__}: {exc}", None))
+                continue
+            if want is None:
+                bad.append((src, env, f"python raises, evaluator gives {got!r}", None))
+                continue
+            w_, g_ = want, got
+            if isinstance(w_, (set, frozenset)):
+                w_, g_ = sorted(w_), sorted(g_) if isinstance(g_, (set, frozenset, list)) else g_
+            if isinstance(w_, dict):
+                w_, g_ = sorted(w_.items()), sorted(g_.items()) if isinstance(g_, dict) else g_
+            if isinstance(w_, str) or isinstance(g_, str):
+                ok_ = w_ == g_
+            elif isinstance(w_, bool) and isinstance(g_, (bool, int)):
+                ok_ = bool(w_) == bool(g_)
+            else:
+                ok_ = same(norm(g_), norm(w_))
+            if ok_:
+                agree += 1
+            else:
+                bad.append((src, env, g_, w_))
+    cases = cases + [None] * (fcases + pcases)
     print(f"evaluator difftest: {len(cases)} cases, {agree} agree with torch, {refused} refused (Unfoldable), {torch_err} rejected by torch, {len(bad)} DISAGREE")
     seen = set()
     for src, tens, got, want in bad:
